@@ -29,6 +29,8 @@ pub fn run(a: &Args) -> Report {
     let longs: Vec<Proto> = vec![Proto::Vmess(3), Proto::Vmess(4), Proto::Ss(refimpl::ss::Method::Aes128Gcm), Proto::Ss(refimpl::ss::Method::B3ChaCha20Poly1305)];
     let lr = parallel(longs.len(), a.threads, |i, rep| long_stream(seed, longs[i], rep));
     rep.merge(lr);
+    let cr = parallel(a.n(400, 4000), a.threads, |i, rep| relay_chain_case(seed, i as u64, rep));
+    rep.merge(cr);
     rep.extra.insert("trusted_base".into(), json!(["RustCrypto primitive crates (aes, aes-gcm, chacha20poly1305, blake3, md-5, sha1, sha2, sha3, hkdf, crc32fast)", "refimpl written from SIP004/SIP022/VMess/Trojan specifications; self-tested against embedded vectors"]));
     rep
 }
@@ -522,6 +524,130 @@ fn dgram_in_stream(cx: &mut Ctx, rng: &mut Rng, target: &Addr, now: u64, vopt: u
         }
         cx.rep.mon("dgram_real_server_to_ref_client_ok", 1);
     }
+}
+
+
+/// SIP023 identity-header chains: the client's password names one or two relays in front of the server
+/// (iPSK_0 : [iPSK_1 :] server key : user key). What the REAL client encoder emits is walked hop by hop the way the
+/// relays would: each hop opens the first identity header under ITS OWN identity subkey and must find the hash of the
+/// next key; what the last relay forwards must be accepted by the reference server and by the real server decoder as an
+/// ordinary single-identity-header request of that user. Streams and datagrams.
+fn relay_chain_case(seed: u64, i: u64, rep: &mut Report) {
+    let mut rng = Rng::derive(seed, 0xC03C, i);
+    let m = [ss::Method::B3Aes128Gcm, ss::Method::B3Aes256Gcm][(i % 2) as usize];
+    let mut cfg = Cfg::random(&mut rng, Proto::Ss(m), 2);
+    let hops = 1 + (i / 2 % 2) as usize;
+    cfg.chain = (0..hops).map(|_| rng.bytes(m.key_len())).collect();
+    let mut last = cfg.clone();
+    last.chain.clear();
+    let target = gen::random_addr(&mut rng);
+    let now = 1_600_000_000 + rng.below(400_000_000);
+    pin_clock(now);
+    let case = json!({"seed": seed, "index": i, "relay_chain": hops, "cfg": cfg.describe(), "target": target.describe()});
+    if i < 2 {
+        rep.sample(case.clone());
+    }
+    let mut cx = Ctx { rep, cfg: &cfg, case, nontrivial: false };
+    let hash_of = |k: &[u8]| refimpl::crypto::blake3_hash16(k);
+    let next_key = |h: usize| if h + 1 < cfg.chain.len() { cfg.chain[h + 1].clone() } else { cfg.server_psk.clone() };
+    // stream
+    'stream: {
+        let shared = match real::client_shared(&cfg) {
+            Ok(s) => s,
+            Err(e) => {
+                cx.viol("real-client/relay-chain", &format!("context:{}", normalise(&e.to_string())), json!({}));
+                break 'stream;
+            }
+        };
+        let mut client = match real::client_codec(&cfg, &shared, &to_address(&target)) {
+            Ok(c) => c,
+            Err(e) => {
+                cx.viol("real-client/relay-chain", &format!("codec:{}", normalise(&e.to_string())), json!({}));
+                break 'stream;
+            }
+        };
+        let n = *rng.pick(&[1usize, 100, 3000]);
+        let payload = rng.bytes(n);
+        let mut wire = BytesMut::new();
+        if let Err(f) = guarded(|| client.encode(&payload, &mut wire)) {
+            cx.viol("real-client/relay-chain", &format!("encode:{}", fail_sym(&f)), json!({}));
+            break 'stream;
+        }
+        let mut w = wire.to_vec();
+        for h in 0..cfg.chain.len() {
+            match ss::s22_relay_hop_tcp(m, &cfg.chain[h], &w) {
+                Ok((found, fwd)) => {
+                    cx.rep.mon("identity_headers_opened_hop_by_hop", 1);
+                    if found != hash_of(&next_key(h)) {
+                        cx.viol("real-client->relays/stream", &format!("identity-header-{h}-does-not-open-under-the-key-of-hop-{h}"), json!({"hop": h, "hops": cfg.chain.len(), "wire": hex_short(&w)}));
+                        break 'stream;
+                    }
+                    w = fwd;
+                }
+                Err(e) => {
+                    cx.viol("real-client->relays/stream", &format!("relay-rejects:{}", normalise(&e.to_string())), json!({"hop": h}));
+                    break 'stream;
+                }
+            }
+        }
+        cx.nontrivial = true;
+        let mut server = RefServer::new(&last, now, ServerOpts::default());
+        match server.read(&w) {
+            Ok(p) if p == payload && server.addr.as_ref() == Some(&target) && server.user == last.client_user => cx.rep.mon("relay_chain_streams_accepted_by_the_reference_server", 1),
+            Ok(_) => cx.viol("real-client->relays->ref-server", "addr-payload-or-user-mismatch", json!({"user": server.user})),
+            Err(e) => cx.viol("real-client->relays->ref-server", &format!("ref-rejects:{}", normalise(&e.to_string())), json!({"wire": hex_short(&w)})),
+        }
+        if let Ok(sh) = real::server_shared(&last) {
+            if let Ok(mut srv) = real::server_codec(&last, &sh) {
+                let mut buf = BytesMut::from(&w[..]);
+                let d = drain_server(srv.as_mut(), &mut buf, true);
+                let got: Vec<u8> = d.items.iter().flat_map(|it| it.data().to_vec()).collect();
+                if d.stop.is_some() || got != payload {
+                    cx.viol("real-client->relays->real-server", "not-accepted-after-the-relays", json!({"items": d.items.len(), "stop": d.stop.as_ref().map(fail_sym)}));
+                } else {
+                    cx.rep.mon("relay_chain_streams_accepted_by_the_real_server", 1);
+                }
+            }
+        }
+    }
+    // datagrams
+    'udp: {
+        let mut client = real::ss_udp_client(&cfg);
+        for k in 0..3 {
+            let n = *rng.pick(&[0usize, 64, 1200]);
+            let payload = rng.bytes(n);
+            let mut dst = BytesMut::new();
+            if let Err(f) = guarded(|| client.encode(&payload, &to_address(&target), &mut dst)) {
+                cx.viol("real-client/relay-chain/udp", &format!("encode:{}", fail_sym(&f)), json!({}));
+                break 'udp;
+            }
+            let mut w = dst.to_vec();
+            for h in 0..cfg.chain.len() {
+                match ss::s22_relay_hop_udp(m, &cfg.chain[h], &next_key(h), &w) {
+                    Ok((found, fwd)) => {
+                        cx.rep.mon("identity_headers_opened_hop_by_hop", 1);
+                        if found != hash_of(&next_key(h)) {
+                            cx.viol("real-client->relays/udp", &format!("identity-header-{h}-does-not-open-under-the-key-of-hop-{h}"), json!({"hop": h, "hops": cfg.chain.len(), "k": k}));
+                            break 'udp;
+                        }
+                        w = fwd;
+                    }
+                    Err(e) => {
+                        cx.viol("real-client->relays/udp", &format!("relay-rejects:{}", normalise(&e.to_string())), json!({"hop": h}));
+                        break 'udp;
+                    }
+                }
+            }
+            cx.nontrivial = true;
+            match ss::s22_udp_server_decode(m, &last.server_psk, &last.ref_users(), &w) {
+                Ok((p, user)) if p.payload == payload && p.addr == target && user == last.client_user => cx.rep.mon("relay_chain_datagrams_accepted_by_the_reference_server", 1),
+                Ok(_) => cx.viol("real-client->relays->ref-server/udp", "addr-payload-or-user-mismatch", json!({"k": k})),
+                Err(e) => cx.viol("real-client->relays->ref-server/udp", &format!("ref-rejects:{}", normalise(&e.to_string())), json!({"k": k})),
+            }
+        }
+    }
+    let nt = cx.nontrivial;
+    rep.case(&("relay-chain", seed, i), nt);
 }
 
 /// 66000 one-byte writes in each direction against the reference: counters must carry/wrap exactly as specified.
